@@ -130,6 +130,11 @@ func (s *sim) hook(f *os.File) {
 		s.durDir = m
 		return
 	}
+	if strings.HasPrefix(filepath.Clean(f.Name()), filepath.Join(s.dir, "img")) {
+		// a file of a crash image being examined (its own reopen syncs): only
+		// the live log's files have a durable version to remember
+		return
+	}
 	b, err := os.ReadFile(fmt.Sprintf("/proc/self/fd/%d", f.Fd()))
 	if err != nil {
 		return
